@@ -6,6 +6,9 @@ package main
 //   risor_config.go    the extension list WithLocalImporter configures
 //   vm/vm.go           MaxFrameDepth; the module-name expressions of op.FromImport;
 //                      the keys of the vm.modules cache in importModule
+//   importer/*.go      where the code object an importer hands out comes from (every
+//                      assignment to `code` in Import: the by-name cache or a fresh
+//                      parseAndCompile — the model's `LocalImporter`, `Env.reuse = none`)
 
 import (
 	"fmt"
@@ -169,6 +172,21 @@ func init() {
 		localExpr := assignOf(c14Func(imf, "readFileWithExtensions"), "fullPath")
 		fsf := c14Parse(repo, "importer/fs_importer.go")
 		fsExpr := assignOf(c14Func(fsf, "readFileWithExtensions"), "fullName")
+		// Import: every expression assigned to `code` (the origin of the code objects handed out)
+		codeSources := func(fd *ast.FuncDecl) []string {
+			var out []string
+			ast.Inspect(fd, func(n ast.Node) bool {
+				if as, ok := n.(*ast.AssignStmt); ok && len(as.Lhs) >= 1 && len(as.Rhs) == 1 {
+					if id, ok := as.Lhs[0].(*ast.Ident); ok && id.Name == "code" {
+						out = append(out, types.ExprString(as.Rhs[0]))
+					}
+				}
+				return true
+			})
+			return out
+		}
+		localCodeSources := codeSources(c14Func(imf, "Import"))
+		fsCodeSources := codeSources(c14Func(fsf, "Import"))
 		// risor_config.newLocalImporter
 		cf := c14Parse(repo, "risor_config.go")
 		var cfgExts []string
@@ -269,6 +287,9 @@ func init() {
 		s += "def importerArgs : List String := " + c14_leanStrList(importArgs) + "\n"
 		s += "def fromImportNames : List String := " + c14_leanStrList(fromArgs) + "\n"
 		s += "def compileImportName : String := " + c14_leanStr(moduleNameExpr) + "\n"
+		s += "/-- every expression assigned to `code` in LocalImporter.Import / FSImporter.Import, in source order -/\n"
+		s += "def localImporterCodeSources : List String := " + c14_leanStrList(localCodeSources) + "\n"
+		s += "def fsImporterCodeSources : List String := " + c14_leanStrList(fsCodeSources) + "\n"
 		s += "\nend Risor.Generated.C14\n"
 		return s
 	}})
